@@ -81,6 +81,9 @@ def check(tier):
                               'digit-sum arithmetic of ISIN/CUSIP/FIGI and the hash/Bech32 parts of Bitcoin addresses are not decided'])
     with open(os.path.join(VERIF, 'specs', 'international.json')) as fh:
         spec = json.load(fh)['formats']
+    # the IBAN envelope includes the national rules reached through util.get_cc_module
+    from .c09 import check_cc_import
+    check_cc_import(rep, 'C07.dispatch-import')
     I = get_interp()
     B = I.B
     prog = I.prog
